@@ -332,7 +332,12 @@ func BuildCte(query *Query, expr *sqlparser.With) error {
 	for _, cte := range expr.CTEs {
 		copy := *cte
 		evaluating := false
+		evaluated := false
+		var memo any
 		query.data[copy.ID.String()] = CteEvaluation(func() (any, error) {
+			if evaluated {
+				return memo, nil
+			}
 			if evaluating {
 				return nil, EXPECTATION_FAILED.Extend(fmt.Sprintf("recursive reference to common table expression %s", copy.ID.String()))
 			}
@@ -346,7 +351,10 @@ func BuildCte(query *Query, expr *sqlparser.With) error {
 			if err != nil {
 				return nil, err
 			}
-			query.data[copy.ID.String()] = rs
+			// the result is remembered here and not in the data map: a row that selected
+			// the backward reference (`<-`) points at that map, and storing the rows in it
+			// would make the result contain itself
+			memo, evaluated = rs, true
 			return rs, nil
 		})
 	}
